@@ -12,6 +12,8 @@ let v3 a b c = ((zi a, zi b), zi c)
 let v3s ((a, b), c) = Printf.sprintf "%d %d %d" (iz a) (iz b) (iz c)
 let res_s f = function Ok a -> f a | Exc -> "EXC" | Oob -> "OOB" | Trap -> "TRAP"
 let b01 b = if b then "1" else "0"
+(* more than 40 bits *)
+let zbig z = let rec len = function XH -> 1 | XO p | XI p -> 1 + len p in match z with Zpos p -> len p > 40 | _ -> false
 
 let handle cmd args : string option =
   let w = words args in
@@ -62,8 +64,15 @@ let handle cmd args : string option =
   | "setup" -> (match w with
       | t :: rest -> (match ints rest with
         | [nx; ny; nz; mode; sx; sy; sz; mx; my; mz; mc; mr; ms; ispg; _swap; smode; dflt; seed] ->
-          if not (List.mem mode [0; 1; 2; 6]) then None else
-          let cnt = if nx < 0 || ny < 0 || nz < 0 then 0 else nx * ny * nz in
+          if not (List.mem mode [0; 1; 2; 6]) then Some "EXC" else
+          (* the harness supplies at most 2^22 voxels: beyond that the reader runs out of data (or of memory) *)
+          (* read_ccp4_stream: grid.data.resize(point_count()); the harness supplies at most 2^22 voxels, beyond that
+             the reader runs out of data or of memory *)
+          let pc = point_count (v3 nx ny nz) in
+          if (match pc with Zpos p -> (try int_of_z pc > 4194304 with _ -> true) | _ -> false) || zbig pc then Some "EXC" else
+          let newcount = if mx > 0 && my > 0 && mz > 0 then (if mx * my > 268435456 then max_int else mx * my * mz) else 0 in
+          if smode <> 2 && newcount > 4194304 && newcount <= 268435456 then None else
+          let cnt = int_of_z pc in
           let data = List.init cnt (fun k -> let v = zi (valfn seed k) in
                                      if t = "b" && mode = 2 then translate_mask v else v) in
           let h = { h_n = v3 nx ny nz; h_mode = zi mode; h_start = v3 sx sy sz; h_samp = v3 mx my mz;
@@ -76,6 +85,34 @@ let handle cmd args : string option =
               (v3s h'.h_start) (v3s h'.h_samp) (v3s h'.h_axes) (iz h'.h_ispg) (iz h'.h_nsymbt)
               (List.length g'.g_data) (hash_list (List.map iz g'.g_data) dflt)) r)
         | _ -> None)
+      | _ -> None)
+  | "mstream" -> (match w with
+      | sz :: ops ->
+        let size = int_of_string sz in
+        let cur = ref 0 and bad = ref false and out = ref [] in
+        List.iter (fun o ->
+          let arg = if String.length o > 1 then int_of_string (String.sub o 1 (String.length o - 1)) else 0 in
+          let op = match o.[0] with
+            | 'r' -> SRead (zi arg)
+            | 's' -> SSkip (zi arg)
+            | 'g' -> let d = 6 - (!cur mod 7) in
+                     SGets (zi arg, zi (if !cur >= 0 && !cur + d < size then d else -1))
+            | 'c' -> SGetc
+            | _ -> SRest in
+          let r = step (zi size) (zi !cur) op in
+          if not (range_ok (zi size) r) then bad := true;
+          cur := iz r.s_cur;
+          out := Printf.sprintf "%d:%d" (iz r.s_cur) (iz r.s_ret) :: !out) ops;
+        Some (if !bad then "OOB" else String.concat " " (List.rev !out))
+      | _ -> None)
+  | "gz" -> (match w with
+      | [isize; total; gzsize; _hex] ->
+        let isize = int_of_string isize and total = int_of_string total and gzsize = int_of_string gzsize in
+        if isize + 100 < gzsize || isize > 100 * gzsize then Some "EXC" else
+        Some (match uncompress grow (nat_of_int (total + 2)) (zi isize) (zi total) with
+              | Some (Some n) -> Printf.sprintf "OK %d" (iz n)
+              | Some None -> "EXC"
+              | None -> "NONTERMINATION")
       | _ -> None)
   | _ -> None
 
